@@ -102,3 +102,9 @@ def rules(ctx: Ctx) -> None:
                "whether reading a table leaves an incident edge must not depend on the alias it carries (DROP removes tables of degree 0: an un-aliased, read-only table would vanish "
                "while the aliased spelling survives)" + (f"; depends on `{foreign[0]}`" if foreign else ""))
     ctx.floor("alias edge sites in add_read", len(edges), 1)
+
+    # ---- R08.5 an alias handed to a sub-query / table constructor is not already normalised (= R16.2): the constructor normalises again and a
+    # quoted mixed-case CTE or alias name no longer equals the qualifier that refers to it
+    from .common import import_rules as _imp8
+
+    _imp8(ctx, "C16", {"R16.2": "R08.5"}, key_filter=lambda o: "(alias)" in o.key or "->alias" in o.key)
